@@ -541,8 +541,11 @@ func (r *requestSender) Send(writer io.Writer) error {
 		frm.Header.StreamId = r.stream
 		return r.conn.codec.EncodeFrame(frm, writer)
 	case *frame.RawFrame:
-		frm.Header.StreamId = r.stream
-		return r.conn.codec.EncodeRawFrame(frm, writer)
+		// The header is copied because a request's frame is shared: when the request is retried on another connection
+		// the two connections can be writing it at the same time, each with its own stream ID.
+		header := *frm.Header
+		header.StreamId = r.stream
+		return r.conn.codec.EncodeRawFrame(&frame.RawFrame{Header: &header, Body: frm.Body}, writer)
 	default:
 		return errors.New("unhandled frame type")
 	}
